@@ -1,6 +1,6 @@
 """C07 - filter chain is a conjunction; a drop silences the call.
 
-Every chain of <= 3 elements over a 14-element alphabet x 4 separator styles x 6 process states
+Every chain of <= 3 elements over a 17-element alphabet x 4 separator styles x 6 process states
 (real uid x stdin kind), plus single drops at every position of chains of up to 20 elements and
 long arguments, on the production wrapper; decision must equal the conjunction of the measured
 single-element decisions, and a drop must leave every sink untouched while the exec proceeds.
@@ -36,6 +36,9 @@ def elements(uid):
         'xso:zz': (b'exclude_spawns_of:zz', True),
         'xso:colon': (b'exclude_spawns_of:qq,job:runner', False),   # the argument itself contains ':'; the harness runs below a process named job:runner
         'xso:colonmiss': (b'exclude_spawns_of:job:runnerx', True),
+        'only_uid:bare': (b'only_uid', False),           # argument-taking filters written without an argument: empty list
+        'exclude_uid:bare': (b'exclude_uid', True),
+        'nosuch40:arg': (b'nosuchfilter_with_a_name_of_forty_bytes_:%d' % uid, True),
         'nosuch': (b'nosuch', True),
         'nosuch:arg': (b'nosuch:arg', True),
         'empty': (b'', True),
@@ -146,5 +149,5 @@ def run(ck):
             if len(samples) < 5 and evals % 2003 == 7:
                 samples.append({'state': tag, 'chain': text[:100].decode(), 'logged': logged})
     ck.coverage(states=len(outcomes), transitions=evals, traces_validated_against_impl=evals, evaluations=evals, distinct_nontrivial=len(outcomes),
-                rule='all chains of <=3 elements over 14 specs x 4 separator styles, single-drop chains up to 20 elements, long arguments, in 6 process states; distinct = (state, chain elements, decision)',
+                rule='all chains of <=3 elements over 17 specs x 4 separator styles, single-drop chains up to 20 elements, long arguments, in 6 process states; distinct = (state, chain elements, decision)',
                 process_states=len(states), samples=samples or [{'note': 'none'}])
